@@ -189,6 +189,22 @@ theorem dup_definition_rejected (seen : List String) (f : PFn) (rest : List PFn)
 theorem dup_global_rejected (Γ : Ctx) (name : String) (ann : Option PTy) (r : Res) (h : (lookupTy name Γ.vars).isSome = true) :
     ⟨.duplicateGlobal, .duplicateDefinition⟩ ∈ (letRule Γ name ann r true).errs := duplicate_global Γ name ann r h
 
+/-- a function whose name is already taken by a value of the root scope (repair F3): the value
+would win over the function wherever the name is used -/
+theorem fn_name_taken_rejected (p : PProg) (f : PFn) (hf : f ∈ p.fns) (h : (lookupTy f.name hostScope).isSome = true) :
+    ⟨.nameClash, .duplicateDefinition⟩ ∈ (checkProg true p).errs := fn_name_clash_prog p true f hf h
+
+/-- a global whose name is that of a function of the module, in either order of appearance (repair F3) -/
+theorem global_named_like_function_rejected (p : PProg) (g : PGlobal) (f : PFn) (hg : g ∈ p.globals) (hf : f ∈ p.fns)
+    (h : g.name = f.name) : ¬ WellTyped p := by
+  apply prog_not_welltyped
+  intro hn
+  have hl : (lookupTy g.name (p.fns.map fun f => (f.name, fnSig f))).isSome = true := by
+    rw [h]; exact lookupTy_map_isSome p.fns f hf
+  have := global_errors_reach_program p true _ (global_name_clash_mem _ p.globals g hg hl hostScope)
+  rw [hn] at this
+  cases this
+
 /-- duplicate parameter -/
 theorem dup_param_rejected (fns globals : List (String × Ty)) (f : PFn) (hm : f.name ≠ "main")
     (h : dupNames [] (convertParamList f.params).2 ≠ 0) :
@@ -318,6 +334,12 @@ example : hasErr ⟨[], [⟨"f", [("x", .name "int")], .name "int", 0,
     .returnMismatch = true := by decide +kernel
 example : hasErr ⟨[], [mainFn [], mainFn []]⟩ .duplicateDefinition = true := by decide +kernel
 example : hasErr ⟨[⟨"g", none, .int 1⟩, ⟨"g", none, .int 2⟩], [mainFn []]⟩ .duplicateDefinition = true := by decide +kernel
+/-- F3: `let f = 1; fn f() { } fn main() { }`, `let main = 1; fn main() { }`, `fn println() { } fn main() { }` -/
+example : hasErr ⟨[⟨"f", none, .int 1⟩], [⟨"f", [], .name "null", 0, body []⟩, mainFn []]⟩ .duplicateDefinition = true := by
+  decide +kernel
+example : hasErr ⟨[⟨"main", none, .int 1⟩], [mainFn []]⟩ .duplicateDefinition = true := by decide +kernel
+example : hasErr ⟨[], [⟨"println", [], .name "null", 0, body []⟩, mainFn []]⟩ .duplicateDefinition = true := by decide +kernel
+example : check ⟨[⟨"f", none, .int 1⟩], [⟨"g", [], .name "null", 0, body []⟩, mainFn []]⟩ = [] := by decide +kernel
 /-- A6: `let a = 1; let r = a..5;` -/
 example : hasErr ⟨[⟨"a", none, .int 1⟩, ⟨"r", none, .range (.ident "a") (.int 5) false⟩], [mainFn []]⟩
     .nonConstantGlobal = true := by decide +kernel
